@@ -1,2 +1,593 @@
-// Package c12: correspondence harness for property C12 (stub — registers nothing yet).
+// Package c12: "each control command gets exactly one answer per target, never
+// someone else's" — the real controlcommands.Servent + CommandQueue, driven by a
+// scripted scenario through the exported API only.
+//
+// Input  : (cmds script)
+//
+//	cmds   := ((q tmo (t mode)*)*)   command index = position; model id = 100+index
+//	          q    queue index (queues share ONE Servent; the core has one queue)
+//	          tmo  ResponseTimeout in ms, 0 = long (30 s, never expected to fire)
+//	          mode ok | fail | (auto tag err)   what the injected send function does:
+//	               return nil / return an error / hand the target's reply to
+//	               ProcessResponse from inside the send call, then return nil
+//	script := (action*)               executed in order by ONE driver goroutine
+//	          (E c+)          Enqueue; several commands = concurrently, from one goroutine each
+//	          (W c t)         wait until the send function has been called for (c,t)
+//	          (R c t tag err) ProcessResponse(reply carrying the id of command c, sender t)
+//	          (F n t tag err) ProcessResponse(reply carrying the n-th foreign id, sender t)
+//	          (D c)           wait until the callback of command c has been received
+//
+// Obs    : (events final)   the linearisation the harness observed (one mutex):
+//
+//	(S c t ok)                 send function called for (c,t), returned ok/error
+//	(R id t tag err)           ProcessResponse issued (id = 100+c, or 900+n)
+//	(D c result)               a value arrived on c's callback channel
+//	final := ((c result)*)     every received result read AGAIN at the very end
+//	result := nil | (single entry) | (multi id ((t entry)*) (errs t*))
+//	entry  := (own id sender tag err) | (synth id send|timeout) | (other text)
+//
+// The Lean side replays the events on the model as a monitor (ACCEPT/REJECT)
+// and evaluates Spec.C12 on them. Wall-clock never decides anything: every wait
+// is on an observable condition with a 20 s ceiling that yields `inconclusive`.
 package c12
+
+import (
+	"encoding/json"
+	"errors"
+	"fmt"
+	"os"
+	"path/filepath"
+	"sort"
+	"strconv"
+	"strings"
+	"sync"
+	"time"
+
+	"github.com/AliceO2Group/Control/common/utils/uid"
+	"github.com/AliceO2Group/Control/core/controlcommands"
+	mesos "github.com/mesos/mesos-go/api/v1/lib"
+	"github.com/rs/xid"
+
+	"verifharness/fw"
+	"verifharness/sx"
+)
+
+const (
+	ceiling     = 20 * time.Second
+	longTimeout = 30 * time.Second
+	sendErrText = "c12 injected send failure"
+)
+
+func target(n int) controlcommands.MesosCommandTarget {
+	return controlcommands.MesosCommandTarget{
+		AgentId:    mesos.AgentID{Value: "a" + strconv.Itoa(n)},
+		ExecutorId: mesos.ExecutorID{Value: "e" + strconv.Itoa(n)},
+		TaskId:     mesos.TaskID{Value: "t" + strconv.Itoa(n)},
+	}
+}
+
+func targetNo(t controlcommands.MesosCommandTarget) int {
+	v := t.TaskId.Value
+	if len(v) < 2 || v[0] != 't' || t.AgentId.Value != "a"+v[1:] || t.ExecutorId.Value != "e"+v[1:] {
+		return 999
+	}
+	n, err := strconv.Atoi(v[1:])
+	if err != nil {
+		return 999
+	}
+	return n
+}
+
+type tspec struct {
+	t    int
+	mode string // ok | fail | auto
+	tag  int
+	err  bool
+}
+
+type cspec struct {
+	q       int
+	tmo     time.Duration
+	targets []tspec
+}
+
+type run struct {
+	mu      sync.Mutex
+	events  *sx.Node
+	cmds    []cspec
+	real    []*controlcommands.MesosCommand_Transition
+	idOf    map[xid.ID]int // real command id -> model id (100+c / 900+n)
+	foreign []xid.ID
+	servent *controlcommands.Servent
+
+	sendSeen map[[2]int]chan struct{}
+	doneCh   []chan struct{}
+	results  [][]controlcommands.MesosCommandResponse // per command: everything received on its callback
+	firstS   []time.Time
+	lastKey  map[[2]int]chan struct{} // model (id,t) -> previous ProcessResponse on that key returned
+	endCh    chan struct{}
+	fail     error
+}
+
+func (r *run) record(n *sx.Node) {
+	r.events.Add(n)
+}
+
+func (r *run) modelID(id xid.ID) int {
+	if v, ok := r.idOf[id]; ok {
+		return v
+	}
+	return 998
+}
+
+// respObj builds the reply a task would send for command id `id` (a real
+// *MesosCommandResponse_Transition, as core/task/scheduler.go unmarshals it).
+func respObj(name string, id xid.ID, env uid.ID, t, tag int, isErr bool) *controlcommands.MesosCommandResponse_Transition {
+	es := ""
+	if isErr {
+		es = "task error " + strconv.Itoa(tag)
+	}
+	return &controlcommands.MesosCommandResponse_Transition{
+		MesosCommandResponseBase: controlcommands.MesosCommandResponseBase{
+			CommandName: name, CommandId: id, EnvironmentId: env, ErrorString: es, MessageType: "MesosCommandResponse",
+		},
+		CurrentState: "tag" + strconv.Itoa(tag),
+		TaskId:       "t" + strconv.Itoa(t),
+	}
+}
+
+// issue records the arrival and hands the reply to the real ProcessResponse in
+// its own goroutine (as the scheduler does). Responses on one key are issued
+// one after the other: the previous one must have returned, or its command
+// must have completed (a response taken by a caller that then timed out blocks
+// for ever in the real code — see notes/C12.md).
+// Returns the channel closed when ProcessResponse returned.
+func (r *run) issue(mid, c, t, tag int, isErr bool, id xid.ID) (chan struct{}, error) {
+	key := [2]int{mid, t}
+	r.mu.Lock()
+	prev := r.lastKey[key]
+	r.mu.Unlock()
+	if prev != nil {
+		if err := r.settle(prev, c); err != nil {
+			return nil, err
+		}
+	}
+	env := uid.NilID()
+	if c >= 0 {
+		env = r.real[c].EnvironmentId
+	}
+	res := respObj("MesosCommand_Transition", id, env, t, tag, isErr)
+	returned := make(chan struct{})
+	r.mu.Lock()
+	r.lastKey[key] = returned
+	r.record(sx.L(sx.A("R"), sx.I(mid), sx.I(t), sx.I(tag), sx.B(isErr)))
+	r.mu.Unlock()
+	go func() {
+		r.servent.ProcessResponse(res, target(t))
+		close(returned)
+	}()
+	return returned, nil
+}
+
+func (r *run) settle(returned chan struct{}, c int) error {
+	var done chan struct{}
+	if c >= 0 && c < len(r.doneCh) {
+		done = r.doneCh[c]
+	}
+	select {
+	case <-returned:
+	case <-done:
+	case <-time.After(ceiling):
+		return fmt.Errorf("inconclusive: ProcessResponse neither returned nor did its command complete within %s", ceiling)
+	}
+	return nil
+}
+
+func (r *run) send(command controlcommands.MesosCommand, receiver controlcommands.MesosCommandTarget) error {
+	mid := r.modelID(command.GetId())
+	c := mid - 100
+	t := targetNo(receiver)
+	var spec *tspec
+	if c >= 0 && c < len(r.cmds) {
+		for i := range r.cmds[c].targets {
+			if r.cmds[c].targets[i].t == t {
+				spec = &r.cmds[c].targets[i]
+			}
+		}
+	}
+	if spec == nil {
+		r.mu.Lock()
+		r.record(sx.L(sx.A("S"), sx.I(c), sx.I(t), sx.A("unknown")))
+		r.mu.Unlock()
+		return nil
+	}
+	ok := spec.mode != "fail"
+	ev := sx.L(sx.A("S"), sx.I(c), sx.I(t), sx.B(ok))
+	if command.IsMultiCmd() {
+		ev.Add(sx.A("not-single-target"))
+	}
+	r.mu.Lock()
+	if r.firstS[c].IsZero() {
+		r.firstS[c] = time.Now()
+	}
+	r.record(ev)
+	ch := r.sendSeen[[2]int{c, t}]
+	r.mu.Unlock()
+	select {
+	case <-ch:
+	default:
+		close(ch)
+	}
+	if spec.mode == "auto" {
+		if _, err := r.issue(mid, c, t, spec.tag, spec.err, command.GetId()); err != nil {
+			r.mu.Lock()
+			r.fail = err
+			r.mu.Unlock()
+		}
+	}
+	if !ok {
+		return errors.New(sendErrText)
+	}
+	return nil
+}
+
+// entry classifies one per-target response found in a result.
+func (r *run) entry(v controlcommands.MesosCommandResponse) *sx.Node {
+	switch x := v.(type) {
+	case *controlcommands.MesosCommandResponse_Transition:
+		if x == nil {
+			return sx.L(sx.A("other"), sx.A("nil-transition"))
+		}
+		t, tag := 999, -1
+		if strings.HasPrefix(x.TaskId, "t") {
+			if n, err := strconv.Atoi(x.TaskId[1:]); err == nil {
+				t = n
+			}
+		}
+		if strings.HasPrefix(x.CurrentState, "tag") {
+			if n, err := strconv.Atoi(x.CurrentState[3:]); err == nil {
+				tag = n
+			}
+		}
+		return sx.L(sx.A("own"), sx.I(r.modelID(x.GetCommandId())), sx.I(t), sx.I(tag), sx.B(x.Err() != nil))
+	case *controlcommands.MesosCommandResponseBase:
+		if x == nil {
+			return sx.L(sx.A("other"), sx.A("nil-base"))
+		}
+		kind := ""
+		es := ""
+		if e := x.Err(); e != nil {
+			es = e.Error()
+		}
+		switch {
+		case es == sendErrText:
+			kind = "send"
+		case strings.Contains(es, "timed out for task"):
+			kind = "timeout"
+		default:
+			return sx.L(sx.A("other"), sx.A("base:"+es))
+		}
+		if x.GetCommandName() != "MesosCommand_Transition" {
+			return sx.L(sx.A("other"), sx.A("synth-name:"+x.GetCommandName()))
+		}
+		return sx.L(sx.A("synth"), sx.I(r.modelID(x.GetCommandId())), sx.A(kind))
+	case nil:
+		return sx.L(sx.A("other"), sx.A("nil-entry"))
+	default:
+		return sx.L(sx.A("other"), sx.A(fmt.Sprintf("%T", v)))
+	}
+}
+
+func (r *run) result(v controlcommands.MesosCommandResponse) *sx.Node {
+	if v == nil {
+		return sx.A("nil")
+	}
+	if !v.IsMultiResponse() {
+		return sx.L(sx.A("single"), r.entry(v))
+	}
+	m, ok := v.(*controlcommands.MesosCommandMultiResponse)
+	if !ok || m == nil {
+		return sx.L(sx.A("single"), sx.L(sx.A("other"), sx.A(fmt.Sprintf("multi:%T", v))))
+	}
+	type kv struct {
+		t int
+		e *sx.Node
+	}
+	var kvs []kv
+	for k, e := range m.GetResponses() {
+		kvs = append(kvs, kv{targetNo(k), r.entry(e)})
+	}
+	sort.Slice(kvs, func(i, j int) bool { return kvs[i].t < kvs[j].t })
+	ents := sx.L()
+	for _, x := range kvs {
+		ents.Add(sx.L(sx.I(x.t), x.e))
+	}
+	var errs []int
+	for k := range m.Errors() {
+		errs = append(errs, targetNo(k))
+	}
+	sort.Ints(errs)
+	en := sx.L(sx.A("errs"))
+	for _, t := range errs {
+		en.Add(sx.I(t))
+	}
+	return sx.L(sx.A("multi"), sx.I(r.modelID(m.GetCommandId())), ents, en)
+}
+
+func parseInput(in *sx.Node) ([]cspec, []*sx.Node, error) {
+	if in.Len() != 2 {
+		return nil, nil, fmt.Errorf("bad input")
+	}
+	var cmds []cspec
+	for _, cn := range in.At(0).List {
+		if cn.Len() < 2 {
+			return nil, nil, fmt.Errorf("bad command")
+		}
+		cs := cspec{q: cn.At(0).Int(), tmo: time.Duration(cn.At(1).Int()) * time.Millisecond}
+		if cs.tmo == 0 {
+			cs.tmo = longTimeout
+		}
+		for _, tn := range cn.List[2:] {
+			ts := tspec{t: tn.At(0).Int()}
+			m := tn.At(1)
+			if m.IsList {
+				ts.mode, ts.tag, ts.err = m.At(0).Str(), m.At(1).Int(), m.At(2).Bool()
+			} else {
+				ts.mode = m.Str()
+			}
+			if ts.mode != "ok" && ts.mode != "fail" && ts.mode != "auto" {
+				return nil, nil, fmt.Errorf("bad mode %q", ts.mode)
+			}
+			cs.targets = append(cs.targets, ts)
+		}
+		cmds = append(cmds, cs)
+	}
+	return cmds, in.At(1).List, nil
+}
+
+func runImpl(input string) (string, error) {
+	in, err := sx.Parse(input)
+	if err != nil {
+		return "", err
+	}
+	cmds, script, err := parseInput(in)
+	if err != nil {
+		return "", err
+	}
+	r := &run{events: sx.L(), cmds: cmds, idOf: map[xid.ID]int{}, sendSeen: map[[2]int]chan struct{}{},
+		lastKey: map[[2]int]chan struct{}{}, endCh: make(chan struct{})}
+	r.servent = controlcommands.NewServent(r.send)
+	queues := map[int]*controlcommands.CommandQueue{}
+	notify := make([]chan controlcommands.MesosCommandResponse, len(cmds))
+	env := uid.New()
+	for c, cs := range cmds {
+		var recv []controlcommands.MesosCommandTarget
+		for _, ts := range cs.targets {
+			recv = append(recv, target(ts.t))
+			r.sendSeen[[2]int{c, ts.t}] = make(chan struct{})
+		}
+		cmd := controlcommands.NewMesosCommand_Transition(env, recv, "STANDBY", "CONFIGURE", "CONFIGURED", nil)
+		cmd.ResponseTimeout = cs.tmo // the exported field, as core/task/manager.go sets it
+		r.real = append(r.real, cmd)
+		r.idOf[cmd.Id] = 100 + c
+		r.doneCh = append(r.doneCh, make(chan struct{}))
+		r.results = append(r.results, nil)
+		r.firstS = append(r.firstS, time.Time{})
+		notify[c] = make(chan controlcommands.MesosCommandResponse) // unbuffered, as the callers in core/task
+		if queues[cs.q] == nil {
+			q := controlcommands.NewCommandQueue(r.servent)
+			q.Start()
+			queues[cs.q] = q
+		}
+	}
+	defer func() {
+		close(r.endCh)
+		for _, q := range queues {
+			q.Stop()
+		}
+	}()
+	// one listener per callback channel: records every value that ever arrives
+	for c := range cmds {
+		go func(c int) {
+			first := true
+			for {
+				select {
+				case v := <-notify[c]:
+					now := time.Now()
+					r.mu.Lock()
+					r.results[c] = append(r.results[c], v)
+					r.record(sx.L(sx.A("D"), sx.I(c), r.result(v)))
+					st := r.firstS[c]
+					r.mu.Unlock()
+					if first {
+						first = false
+						if !st.IsZero() && cmds[c].tmo < longTimeout {
+							noteRatio(float64(now.Sub(st)) / float64(cmds[c].tmo))
+						}
+						close(r.doneCh[c])
+					}
+				case <-r.endCh:
+					return
+				}
+			}
+		}(c)
+	}
+
+	valid := func(c int) bool { return c >= 0 && c < len(cmds) }
+	enqueued := make([]bool, len(cmds))
+	for _, a := range script {
+		switch a.At(0).Str() {
+		case "E":
+			var cs []int
+			for _, n := range a.List[1:] {
+				if !valid(n.Int()) || enqueued[n.Int()] {
+					return "", fmt.Errorf("bad E")
+				}
+				enqueued[n.Int()] = true
+				cs = append(cs, n.Int())
+			}
+			if len(cs) == 1 {
+				if err := queues[cmds[cs[0]].q].Enqueue(r.real[cs[0]], notify[cs[0]]); err != nil {
+					return "", err
+				}
+			} else {
+				var wg sync.WaitGroup
+				errs := make([]error, len(cs))
+				for i, c := range cs {
+					wg.Add(1)
+					go func(i, c int) {
+						defer wg.Done()
+						errs[i] = queues[cmds[c].q].Enqueue(r.real[c], notify[c])
+					}(i, c)
+				}
+				wg.Wait()
+				for _, e := range errs {
+					if e != nil {
+						return "", e
+					}
+				}
+			}
+		case "W":
+			ch := r.sendSeen[[2]int{a.At(1).Int(), a.At(2).Int()}]
+			if ch == nil {
+				return "", fmt.Errorf("bad W")
+			}
+			select {
+			case <-ch:
+			case <-time.After(ceiling):
+				return "", fmt.Errorf("inconclusive: send (%d,%d) not observed within %s", a.At(1).Int(), a.At(2).Int(), ceiling)
+			}
+		case "R":
+			c := a.At(1).Int()
+			if !valid(c) {
+				return "", fmt.Errorf("bad R")
+			}
+			ret, err := r.issue(100+c, c, a.At(2).Int(), a.At(3).Int(), a.At(4).Bool(), r.real[c].Id)
+			if err != nil {
+				return "", err
+			}
+			if err := r.settle(ret, c); err != nil {
+				return "", err
+			}
+		case "F":
+			n := a.At(1).Int()
+			for len(r.foreign) <= n {
+				id := xid.New()
+				r.mu.Lock()
+				r.idOf[id] = 900 + len(r.foreign)
+				r.mu.Unlock()
+				r.foreign = append(r.foreign, id)
+			}
+			ret, err := r.issue(900+n, -1, a.At(2).Int(), a.At(3).Int(), a.At(4).Bool(), r.foreign[n])
+			if err != nil {
+				return "", err
+			}
+			if err := r.settle(ret, -1); err != nil {
+				return "", err
+			}
+		case "D":
+			c := a.At(1).Int()
+			if !valid(c) || !enqueued[c] {
+				return "", fmt.Errorf("bad D")
+			}
+			select {
+			case <-r.doneCh[c]:
+			case <-time.After(ceiling + cmds[c].tmo):
+				return "", fmt.Errorf("inconclusive: command %d not completed within %s", c, ceiling+cmds[c].tmo)
+			}
+		default:
+			return "", fmt.Errorf("bad action %q", a.At(0).Str())
+		}
+	}
+	// everything enqueued must have completed before the final reading
+	for c := range cmds {
+		if !enqueued[c] {
+			continue
+		}
+		select {
+		case <-r.doneCh[c]:
+		case <-time.After(ceiling + cmds[c].tmo):
+			return "", fmt.Errorf("inconclusive: command %d not completed within %s", c, ceiling+cmds[c].tmo)
+		}
+	}
+	r.mu.Lock()
+	defer r.mu.Unlock()
+	if r.fail != nil {
+		return "", r.fail
+	}
+	final := sx.L()
+	for c := range cmds {
+		for _, v := range r.results[c] {
+			final.Add(sx.L(sx.I(c), r.result(v)))
+		}
+	}
+	return sx.L(r.events, final).String(), nil
+}
+
+// ---- "within its response timeout": observed, reported as a number, never a verdict ----
+
+var (
+	ratioMu  sync.Mutex
+	ratioMax float64
+	ratioN   int
+	workDir  string
+)
+
+func noteRatio(x float64) {
+	ratioMu.Lock()
+	ratioN++
+	if x > ratioMax {
+		ratioMax = x
+	}
+	ratioMu.Unlock()
+}
+
+func setup(work string) error {
+	workDir = work
+	ratioMu.Lock()
+	ratioMax, ratioN = 0, 0
+	ratioMu.Unlock()
+	return nil
+}
+
+func teardown() {
+	if workDir == "" {
+		return
+	}
+	ratioMu.Lock()
+	b, _ := json.Marshal(map[string]any{
+		"what": "commands with a shortened ResponseTimeout: (first send .. callback) / ResponseTimeout; " +
+			"the code promises <= 1 + scheduling delay; observed only, never a verdict",
+		"commands": ratioN, "max_ratio": ratioMax,
+	})
+	ratioMu.Unlock()
+	os.WriteFile(filepath.Join(workDir, "timing.json"), b, 0o644)
+}
+
+func init() {
+	fw.Register(&fw.Property{
+		ID:         "C12",
+		Generate:   generate,
+		RunImpl:    runImpl,
+		Nontrivial: nontrivial,
+		Rule: "scripted scenarios on the real Servent+CommandQueue(s): 1..4 commands x 0..8 targets from a shared pool of 10, " +
+			"per-target behaviour in {reply, error reply, send failure, silence->timeout (ResponseTimeout 25..60 ms), reply from inside send}, " +
+			"plus duplicate / late / early / foreign-id / wrong-sender / other-command replies in scripted arrival orders, sequential or " +
+			"concurrent Enqueue, one queue (as the core) or two queues on one Servent; the observed linearisation is replayed on the Lean " +
+			"model as a monitor and Spec.C12 is evaluated on it; non-trivial = >=2 commands or >=2 targets, and >=1 reply that is not the " +
+			"first own reply of a pending call (dup/late/early/foreign/wrong) or >=1 timeout/send failure; distinct by input text",
+		Shrink:   shrinkCands,
+		Workers:  8,
+		Setup:    setup,
+		Teardown: teardown,
+		TrustedBase: []string{
+			"harness/props/c12 (scenario driver, event recorder under one mutex, result classifier by response object fields / error text)",
+			"Lean driver Driver/C12.lean (monitor replay: internal steps timeout/recv placed from the reported outcomes)",
+		},
+		Assumptions: []string{
+			"distinct command ids (xid.New) and per-command distinct targets (Tasks.GetMesosCommandTargets)",
+			"the order in which the harness records events under its mutex is a linearisation of the calls it makes/receives; a reply is issued on a key only after the previous reply on that key returned or its command completed",
+			"wall-clock: 'within its response timeout' is observed (timing.json: max (send..callback)/ResponseTimeout), not verified",
+		},
+	})
+}
